@@ -800,6 +800,12 @@ class Component(composites.Composite, metaclass=ComponentType):
             vol = None
             area = self.getArea()
 
+        # since we're updating the object the param points to but not the param itself, we have to inform
+        # the param system to flag it as modified so it properly syncs during ``syncMpiState``. This comes
+        # first, so that a read-only parameter collection refuses the update before a density has changed.
+        self.p.assigned = parameters.SINCE_ANYTHING
+        self.p.paramDefs["numberDensities"].assigned = parameters.SINCE_ANYTHING
+
         # change the densities
         if wipe:
             self.p.numberDensities = {}  # clear things not passed
@@ -818,11 +824,6 @@ class Component(composites.Composite, metaclass=ComponentType):
             else:
                 factor = area / self.getArea()
             self.changeNDensByFactor(factor)
-
-        # since we're updating the object the param points to but not the param itself, we have to inform
-        # the param system to flag it as modified so it properly syncs during ``syncMpiState``.
-        self.p.assigned = parameters.SINCE_ANYTHING
-        self.p.paramDefs["numberDensities"].assigned = parameters.SINCE_ANYTHING
 
     def changeNDensByFactor(self, factor):
         """Change the number density of all nuclides within the object by a multiplicative factor."""
